@@ -31,6 +31,11 @@ class Ctx:
         if floor:
             self.floors[rid] = floor
 
+    def isa(self):
+        """import-elaborated ISA declarations of the tree under analysis"""
+        from . import isadump
+        return isadump.dump(self.project.root, self.project.overlay)
+
     def saw(self, kind, what):
         self.analysed.setdefault(kind, set()).add(what)
 
